@@ -18,7 +18,7 @@ range check at every integer construction). This file contains the property theo
      MIN/MAX/WITHIN, comparisons, to-boolean, canonical integer encoding and CONVERT round trips, NUMEQUAL
      vs EQUAL, PACK/UNPACK/PACKMAP inverses, NEWARRAY_T defaults, the ordered-map and list laws of
      PICKITEM/SETITEM/APPEND/REMOVE/HASKEY/KEYS/VALUES, REVERSEITEMS involution, SUBSTR/LEFT/RIGHT/CAT/MEMCPY,
-     deep copy of Struct and its budget;
+     deep copy of Struct and its budget, EQUAL on Structs = structural equality (Proofs/VmSpecStructEq.lean);
   7. (Proofs/VmRefDiff.lean, Proofs/VmReachWalk.lean) the known finding refcount-cyclic-garbage as a theorem
      between the specification and the implementation's counter model of C12.
 Helper lemmas: `Proofs/VmNum.lean`, `Proofs/VmEq.lean`.
@@ -31,6 +31,8 @@ import NeoModel.Proofs.VmDispatch
 import NeoModel.Proofs.VmSpecArithB
 import NeoModel.Proofs.VmSpecConvB
 import NeoModel.Proofs.VmSpecClone
+import NeoModel.Proofs.VmSpecStructEq
+import NeoModel.Proofs.VmSpecStep
 import NeoModel.Proofs.VmReachWalk
 open NeoModel NeoModel.Vm
 namespace NeoModel.Vm.C13
